@@ -2014,7 +2014,7 @@ def t_record( ctx ):
     else:
         S = cm.args.args[1].arg
         badtxt = None
-        for text in ( 'note', 'first\nsecond', 'a\n\nb' ):
+        for text in ( 'note', 'first\nsecond', 'a\n\nb', 'ends with a newline\n' ):
             try:
                 out = fold( apps[0].args[0], { S: text } )
             except NoFold as exc:
